@@ -150,6 +150,13 @@ func checkC08(c *Ctx) {
 		c.workerErrFlow("tree", name, nil, "trees on different taxa are rejected with an error")
 	}
 	c.compareTipIndexesRule()
+	c.Decides("SIDES: CommonEdges (function and method), Compare and CompareWeighted never assign to the parameter of one side a value built from the parameter of the other side (their results are reported per side)")
+	for _, fi := range []*FuncInfo{c.Func("tree", "", "CommonEdges"), c.Func("tree", "Tree", "CommonEdges"), c.Func("tree", "", "Compare"), c.Func("tree", "", "CompareWeighted")} {
+		if fi != nil {
+			c.sidesKept("SIDES", fi, "the per-side counts are those of the side they are named after")
+		}
+	}
+	c.Floor("SIDES", 2)
 	// CommonEdges (pairwise variant)
 	if fi := c.Func("tree", "", "CommonEdges"); fi != nil {
 		info := fi.Pkg.TypesInfo
